@@ -180,21 +180,26 @@ def isFlowInstr (i : Instr) : Bool := isLabelInstr i || i.isEffect
 
 /-! ### C15 -/
 
+def tyEntry (d : StructDecl) : Name × Ty := (d.name, .struct d.name (attrsToMap d.attrs 0 .nil))
+def tyInstr (d : StructDecl) : Instr := .types d.name (attrsToMap d.attrs 0 .nil)
+def constEntry : TopStmt → Option (Name × ConstSem)
+  | .const d => some (d.name, ⟨d.name, d.ty.toTy, d.value⟩)
+  | _ => none
+def funcEntry : TopStmt → Option (Name × Func)
+  | .fn f => some (f.name, ⟨f.name, f.result.toTy, f.params.map (·.2.toTy)⟩)
+  | _ => none
+def declInstr : TopStmt → Option Instr
+  | .const d => some (.const ⟨d.name, d.ty.toTy, d.value⟩)
+  | .fn f => some (.fnDecl f.name (f.params.map fun q => ⟨q.1, q.2.toTy⟩) f.result.toTy)
+  | _ => none
+
 def P_C15 (p : Program) (r : Result) : List String :=
   if r.panic.isSome then [] else
   let ds := declPhase p
-  let wantTypes := ds.rtypes.map fun d => (d.name, Ty.struct d.name (attrsToMap d.attrs 0 .nil))
-  let wantConsts := ds.rdecls.filterMap fun
-    | .const d => some (d.name, (⟨d.name, d.ty.toTy, d.value⟩ : ConstSem))
-    | _ => none
-  let wantFuncs := ds.rdecls.filterMap fun
-    | .fn f => some (f.name, (⟨f.name, f.result.toTy, f.params.map (·.2.toTy)⟩ : Func))
-    | _ => none
-  let wantCtx := (ds.rtypes.map fun d => Instr.types d.name (attrsToMap d.attrs 0 .nil)) ++
-    ds.rdecls.filterMap fun
-      | .const d => some (Instr.const ⟨d.name, d.ty.toTy, d.value⟩)
-      | .fn f => some (Instr.fnDecl f.name (f.params.map fun q => ⟨q.1, q.2.toTy⟩) f.result.toTy)
-      | _ => none
+  let wantTypes := ds.rtypes.map tyEntry
+  let wantConsts := ds.rdecls.filterMap constEntry
+  let wantFuncs := ds.rdecls.filterMap funcEntry
+  let wantCtx := ds.rtypes.map tyInstr ++ ds.rdecls.filterMap declInstr
   (if sortByKey wantTypes == sortByKey r.types then [] else ["c15:type-table-differs-from-first-passing-declarations"]) ++
   (if sortByKey wantConsts == sortByKey r.consts then [] else ["c15:constant-table-differs-from-first-passing-declarations"]) ++
   (if sortByKey wantFuncs == sortByKey r.funcs then [] else ["c15:function-table-differs-from-first-passing-declarations"]) ++
